@@ -63,3 +63,39 @@ Proof.
   intros Hnd Hp. rewrite !gen_validator_updates_agrees. unfold validator_updates_enum.
   apply ksort_unique; assumption.
 Qed.
+
+(* ShutterApp.makePowermap and countCheckedInKeypers (app.go) as translated *)
+From Verif Require Import Model.App Generated.AppConsts.
+Lemma gen_make_powermap_agrees ids keypers : gen_make_powermap ids keypers = make_powermap ids keypers.
+Proof.
+  unfold gen_make_powermap, make_powermap. cbv zeta.
+  apply fold_left_ext; [|reflexivity]. intros pm k. unfold amem.
+  destruct (aget ids k); reflexivity.
+Qed.
+
+Lemma filter_len_le {A} (f : A -> bool) l : (List.length (filter f l) <= List.length l)%nat.
+Proof. induction l as [|x r IH]; simpl; [lia|]. destruct (f x); simpl; lia. Qed.
+
+Lemma gen_count_fold (ids : amap bytes) keypers acc :
+  0 <= acc -> acc + Z.of_nat (List.length keypers) < 18446744073709551616 ->
+  fold_left (fun n k => if amem ids k then (n + 1) mod 18446744073709551616 else n) keypers acc =
+  acc + Z.of_nat (List.length (filter (fun k => amem ids k) keypers)).
+Proof.
+  revert acc. induction keypers as [|k r IH]; intros acc H0 Hb; cbn [fold_left filter List.length].
+  - lia.
+  - assert (Hf := filter_len_le (fun k => amem ids k) r).
+    cbn [List.length] in Hb.
+    destruct (amem ids k); cbn [List.length].
+    + rewrite Z.mod_small by lia. rewrite IH by lia. lia.
+    + rewrite IH by lia. lia.
+Qed.
+
+Lemma gen_count_checked_in_agrees (ids : amap bytes) keypers :
+  Z.of_nat (List.length keypers) < 18446744073709551616 ->
+  gen_count_checked_in ids keypers = Z.of_N (count_checked_in ids keypers).
+Proof.
+  intros Hb. unfold gen_count_checked_in, count_checked_in. cbv zeta.
+  rewrite nat_N_Z, <- (Z.add_0_l (Z.of_nat _)).
+  etransitivity; [|apply (gen_count_fold ids keypers 0); lia].
+  apply fold_left_ext; [|reflexivity]. intros n k. destruct (amem ids k); reflexivity.
+Qed.
